@@ -15,16 +15,27 @@
   Proved here in addition: every byte at which a scanner may stop is ASCII; the checked conversions
   reject invalid bytes.
   The clause "INPUT that is not valid UTF-8 inside a string is rejected" (as opposed to: what is returned
-  is valid): `C17_elisp_backslash_continuation_rejected` (Proofs/Utf8Input.lean) — under the Emacs Lisp
-  string syntax a backslash followed by a continuation byte is an error in every state (repair 29,
-  /repo c74523a; `C17_repair29_input_rejected` is the input that exposed it); the clause as a whole is
-  FALSE of the model and of the code, `C17_numeric_escape_completes_sequence` (recorded finding
-  `[numeric escape completes a sequence]`): `"` C3 `\xa9"` is not valid UTF-8 and is read as `é`.
-  That clause is decided by the direct oracle of the correspondence run.
+  is valid), for the Emacs Lisp string syntax, where escape output and raw input meet in one buffer that is
+  validated as a whole (Proofs/Utf8Input.lean, Utf8InputLoopBase.lean, Utf8InputLoop.lean):
+   * `C17_elisp_backslash_continuation_rejected` — a backslash followed by a continuation byte is an error
+     in every state (repair 29, /repo c74523a; `C17_repair29_input_rejected` is the input that exposed it);
+   * `InLoop.C17_elisp_input_valid`, `InLoop.C17_elisp_input_valid_unibyte`, `InLoop.C17_elisp_input_valid_iff`,
+     `InLoop.C17_elisp_token_input_valid` (restated below as `C17_elisp_input_clause`): for every source, fuel
+     and state, if the string token is accepted and consumed the bytes `w`, then `w` is valid UTF-8 — UNLESS
+     one of exactly two things happened, recorded by flags of an instrumented copy of the loop that is proved
+     to agree with the model's loop (`parseElispStrT_agrees`): a numeric escape appended a byte >= 0x80 (`hi`),
+     or an escaped blank was read while the buffer ended inside a sequence (`bl`); for a unibyte result the
+     exception is a byte >= 0x80 directly after a backslash (`nc`; such input comes back as bytes, which the
+     property allows).  Each exception is necessary: `C17_numeric_escape_completes_sequence` / `InLoop.hi_is_needed`
+     (`"` C3 `\xa9"` is read as the string é), `InLoop.escaped_blank_joins_sequence` (`"` C3 `\ ` A9 `"` too),
+     `InLoop.unibyte_catchall_raw_byte`; all three are behaviours of the real code.  So the clause as a whole is
+     FALSE of the model and of the code in exactly the class of the recorded finding
+     `[escape joins an ill-formed sequence]`, and true everywhere else.
 -/
 import LexprModel.Proofs.Utf8Valid
 import LexprModel.Proofs.Utf8Parse
 import LexprModel.Proofs.Utf8Input
+import LexprModel.Proofs.Utf8InputLoop
 namespace Lexpr
 namespace Parse
 
@@ -71,6 +82,20 @@ theorem C17_numeric_escape_completes_sequence :
     Image.parsesTo Image.cfgEl [0x22, 0xC3, 0x5C, 0x78, 0x61, 0x39, 0x22] (.string [0xC3, 0xA9]) = true ∧
     Image.parsesTo Image.cfgEl [0x22, 0xC3, 0xA9, 0x22] (.string [0xC3, 0xA9]) = true :=
   numeric_escape_completes_sequence
+
+/-- the input clause for Emacs Lisp strings at the token level: an accepted string token consumed valid
+    UTF-8 unless a byte escape (`hi`) or an escaped blank inside a sequence (`bl`) joined an ill-formed
+    sequence; an accepted unibyte token consumed valid UTF-8 unless a byte >= 0x80 followed a backslash -/
+theorem C17_elisp_input_clause {cfg : Cfg} {fuel : Nat} {S S' : St} {tok : Token}
+    {w : List UInt8} (h : parseToken cfg fuel 34 S = .ok tok S')
+    (hel : cfg.opts.string = .elisp) (hpk : ∃ tl, S.rd.rest = 34 :: tl)
+    (hw : S.rd.rest = w ++ S'.rd.rest) :
+    ∃ S1 r fl, S.rd.rest = 34 :: S1.rd.rest ∧
+      InLoop.parseElispStrT fuel [] false false false {} S1 = .ok (r, fl) S' ∧
+      tok = InLoop.tokOf r ∧
+      ((∃ s, tok = .string s) → fl.hi = false → fl.bl = false → Utf8.valid w = true) ∧
+      ((∃ b, tok = .bytes b) → fl.nc = false → Utf8.valid w = true) :=
+  InLoop.C17_elisp_token_input_valid h hel hpk hw
 
 example : Utf8.valid [0xCE, 0xBB, 40, 120, 41] = true ∧ Utf8.valid [0xCE] = false ∧ Utf8.incomplete [0xCE] = true ∧
     Utf8.valid [0xC0, 0x80] = false ∧ Utf8.valid [0xED, 0xA0, 0x80] = false := by decide
